@@ -159,7 +159,7 @@ class _Leave(Exception):
     pass
 
 
-def explore(func, on_stmt=None, limit=20000, env=None):
+def explore(func, on_stmt=None, limit=20000, env=None, fact_events=False):
     """all paths through `func` (a FunctionDef or a list of statements).
     on_stmt(stmt, path) is called for every simple statement and every
     compound head (the If/While test, the For iter, the With item), in
@@ -210,6 +210,10 @@ def explore(func, on_stmt=None, limit=20000, env=None):
         q = p.fork()
         p.facts.append((t, True))
         q.facts.append((t, False))
+        if fact_events:
+            # where on the path the condition was decided
+            p.events.append(("fact", t, True))
+            q.events.append(("fact", t, False))
         return [(p, True), (q, False)]
 
     def step(st, p):
